@@ -175,7 +175,9 @@ HOSTILE_NAMES = ["{HOST}/secret.txt", "{HOST}/notes.md", "{HOST}/sub/deep.csv", 
                  "docs\\..\\..\\host\\secret.txt", "a\\..\\..\\..\\host\\notes.md", "docs\\..\\..\\..\\..\\host\\secret.txt", "docs\\..\\..\\..\\host\\secret.txt"]
 BENIGN_NAMES = ["ok.txt", "docs/readme.md", "data/table.csv", "deep/er/path/note.txt"]
 SKIPPED = [(".hidden.txt", "hidden"), ("__MACOSX/._res.txt", "macosx"), ("inner.zip", "nested"), ("blob.bin", "unsupported"), ("docs/.DS_Store.txt", "hidden"),
-           ("backup/OLD.ZIP", "nested"), ("Inner.Zip", "nested"), ("a/b.zIp", "nested")]
+           ("backup/OLD.ZIP", "nested"), ("Inner.Zip", "nested"), ("a/b.zIp", "nested"),
+           # skipped because of the directory they sit in, under a base name that a visible member carries too
+           ("__MACOSX/ok.txt", "macosx"), ("__MACOSX/docs/readme.md", "macosx"), ("__MACOSX/data/table.csv", "macosx")]
 TARGETS = ["{HOST}/secret.txt", "../../host/secret.txt", "../../../host/notes.md", "/etc/hostname", "ok.txt", "{HOST}/sub"]
 
 
@@ -318,6 +320,17 @@ def curated_cases(kind: str):
         if kind == "7z":
             case["sz"] = {"method": "copy", "layout": "per-file" if i % 2 else "solid", "encode_header": False}
         out.append(case)
+    # every skipped member after a visible member of the same base name (a skip rule must look at the whole member path)
+    for i, (name, cls) in enumerate(SKIPPED):
+        twin = "visible/" + name.rsplit("/", 1)[-1]
+        ents = [{"k": "file", "name": twin, "text": f"member text ZBM{9300 + i}\n"}, {"k": "file", "name": name, "text": f"member text ZXM{9400 + i}\n", "skipped": cls},
+                {"k": "file", "name": "data/table.csv", "text": "member text ZBM9003\n"}]
+        if twin.rsplit("/", 1)[-1].startswith(".") or cls in ("nested", "unsupported"):
+            continue        # the base name alone already decides for these
+        case = {"kind": kind, "entries": ents, "consumer": {"kind": "exhaust"}}
+        if kind == "7z":
+            case["sz"] = {"method": "copy", "layout": "solid", "encode_header": False}
+        out.append(case)
     return out
 
 
@@ -327,7 +340,7 @@ def shard(ctx: Ctx, kind: str):
     try:
         for case in curated_cases(kind):
             part.violations += evaluate(ctx, case, worker, part)
-        part.exhaustive[f"{kind}: every hostile name alone between ordinary members"] = len(HOSTILE_NAMES)
+        part.exhaustive[f"{kind}: every hostile name alone between ordinary members; directory-skipped members after a visible twin"] = len(curated_cases(kind))
         hyp_search(ctx, f"c09-{kind}", cases(kind), lambda c: evaluate(ctx, c, worker, part), ctx.n(160, 3000), part)
     finally:
         worker.close()
